@@ -944,7 +944,12 @@ str_case_cmp (char *a, char *b)
   COPY_PTR (&s1, a);
   COPY_PTR (&s2, b);
 
-  return (int)(s1 - s2);
+  /* same order as the search in f_switch(); a difference truncated to int is not an order */
+  if ((intptr_t) s1 < (intptr_t) s2)
+    return -1;
+  if ((intptr_t) s1 > (intptr_t) s2)
+    return 1;
+  return 0;
 }				/* str_case_cmp() */
 
 static void
